@@ -196,9 +196,52 @@ func runC11(c *Ctx) {
 
 	// ---- R8 refill carries its remainder
 	c.rule("C11-R8", "ORD/def-use: tokens are whole numbers, so the refill truncates; the part of a token that accrued beyond the whole ones survives only in the time base. In the admitting closure, every store to clientLimit.lastRefill that is reachable from the refill (tokens = tokens + k) and does not advance the previous lastRefill (its value does not derive from the loaded field) lies behind an edge establishing tokens >= BurstSize (the bucket is full, nothing is lost): otherwise every refilling request discards up to one token and a client within the declared rate is rejected")
+
 	{
+		// the refill may live in the admitting closure or in a helper it calls (a method of the bucket): evaluate the
+		// rule where the tokens are added, resolving that function's parameters at its call site in the closure
+		rf := adm
+		var site *ssa.Call
+		hasAdd := func(f *ssa.Function) bool {
+			found := false
+			eachInstr(f, func(_ *ssa.BasicBlock, _ int, ins ssa.Instruction) {
+				st, ok := ins.(*ssa.Store)
+				if !ok || !isStoreToField(ins, "clientLimit", "tokens") {
+					return
+				}
+				if bo, ok := st.Val.(*ssa.BinOp); ok && bo.Op == token.ADD && (loadedFromField(bo.X, "clientLimit", "tokens") || loadedFromField(bo.Y, "clientLimit", "tokens")) {
+					found = true
+				}
+			})
+			return found
+		}
+		if !hasAdd(adm) {
+			eachInstr(adm, func(_ *ssa.BasicBlock, _ int, ins ssa.Instruction) {
+				if call, ok := ins.(*ssa.Call); ok {
+					if sf := staticFn(call); sf != nil && sf.Pkg == adm.Pkg && hasAdd(sf) && site == nil {
+						rf, site = sf, call
+					}
+				}
+			})
+		}
+		// originAt: v in rf, or - when v is a parameter of the helper - the argument passed at the call site
+		origin := func(v ssa.Value, pred func(ssa.Value) bool) bool {
+			return derivesFrom(v, func(z ssa.Value) bool {
+				if pred(z) {
+					return true
+				}
+				if p, ok := z.(*ssa.Parameter); ok && site != nil {
+					for i, fp := range rf.Params {
+						if fp == p && i < len(site.Call.Args) {
+							return derivesFrom(site.Call.Args[i], pred)
+						}
+					}
+				}
+				return false
+			})
+		}
 		var adds []ssa.Instruction
-		eachInstr(adm, func(_ *ssa.BasicBlock, _ int, ins ssa.Instruction) {
+		eachInstr(rf, func(_ *ssa.BasicBlock, _ int, ins ssa.Instruction) {
 			st, ok := ins.(*ssa.Store)
 			if !ok || !isStoreToField(ins, "clientLimit", "tokens") {
 				return
@@ -227,7 +270,7 @@ func runC11(c *Ctx) {
 				return derivesFrom(v, func(z ssa.Value) bool { return loadedFromField(z, "clientLimit", "tokens") })
 			}
 			isBurst := func(v ssa.Value) bool {
-				return derivesFrom(v, func(z ssa.Value) bool { return loadedFromField(z, "RateLimiterConfig", "BurstSize") })
+				return origin(v, func(z ssa.Value) bool { return loadedFromField(z, "RateLimiterConfig", "BurstSize") })
 			}
 			if isBurst(x) && isTok(y) {
 				x, y = y, x
@@ -256,7 +299,7 @@ func runC11(c *Ctx) {
 		}
 		n := 0
 		for _, add := range adds {
-			for _, b := range adm.Blocks {
+			for _, b := range rf.Blocks {
 				for _, ins := range b.Instrs {
 					st, ok := ins.(*ssa.Store)
 					if !ok || !isStoreToField(ins, "clientLimit", "lastRefill") {
@@ -265,11 +308,11 @@ func runC11(c *Ctx) {
 					if derivesFrom(st.Val, func(z ssa.Value) bool { return loadedFromField(z, "clientLimit", "lastRefill") }) {
 						continue // advances the old time base
 					}
-					q := &pathQuery{fn: adm, cutEdge: fullEdge, target: func(x ssa.Instruction) bool { return x == ins }}
+					q := &pathQuery{fn: rf, cutEdge: fullEdge, target: func(x ssa.Instruction) bool { return x == ins }}
 					hit, path := q.after(add)
 					if hit == nil {
 						// not reachable from the refill other than through a bucket-full edge (or not at all: creation of a new entry)
-						q0 := &pathQuery{fn: adm, target: func(x ssa.Instruction) bool { return x == ins }}
+						q0 := &pathQuery{fn: rf, target: func(x ssa.Instruction) bool { return x == ins }}
 						if h0, _ := q0.after(add); h0 == nil {
 							continue
 						}
@@ -283,7 +326,7 @@ func runC11(c *Ctx) {
 		// up to the current time (its value derives from time.Now, not from the previous lastRefill)
 		if len(adds) > 0 {
 			resets := false
-			eachInstr(adm, func(_ *ssa.BasicBlock, _ int, ins ssa.Instruction) {
+			eachInstr(rf, func(_ *ssa.BasicBlock, _ int, ins ssa.Instruction) {
 				st, ok := ins.(*ssa.Store)
 				if !ok || !isStoreToField(ins, "clientLimit", "lastRefill") {
 					return
@@ -294,7 +337,7 @@ func runC11(c *Ctx) {
 				if derivesFrom(st.Val, func(z ssa.Value) bool { return loadedFromField(z, "clientLimit", "lastRefill") }) {
 					return
 				}
-				if derivesFrom(st.Val, func(z ssa.Value) bool { cl, ok := z.(*ssa.Call); return ok && callName(cl) == "time.Now" }) {
+				if origin(st.Val, func(z ssa.Value) bool { cl, ok := z.(*ssa.Call); return ok && callName(cl) == "time.Now" }) {
 					resets = true
 				}
 			})
